@@ -987,15 +987,7 @@ def compare_with_fresh(ctx: Ctx, res: SearchResult, case: dict[str, Any], run: d
 		qid = query_id(r)
 		if qid not in queries:
 			queries[qid] = {'id': qid, 'module': r['target']} if r['target'] != MAIN else {'id': qid, 'main': r['main']}
-	fresh_by_seed: dict[str, dict[str, list[Any]]] = {}
-	if len(seeds) == 1:
-		fresh_by_seed[seeds[0]] = fresh_results(ctx, run['proj'], list(queries.values()), seeds[0])
-	else:
-		from concurrent.futures import ThreadPoolExecutor
-		with ThreadPoolExecutor(max_workers=len(seeds)) as ex:
-			futs = {hs: ex.submit(fresh_results, ctx, run['proj'], list(queries.values()), hs, 2) for hs in seeds}
-			for hs, fu in futs.items():
-				fresh_by_seed[hs] = fu.result()
+	fresh_by_seed = fresh_by_seeds(ctx, run['proj'], list(queries.values()), seeds)
 	base = fresh_by_seed[seeds[0]]
 	for hs in seeds[1:]:
 		for qid, fr in fresh_by_seed[hs].items():
@@ -1023,6 +1015,66 @@ def compare_with_fresh(ctx: Ctx, res: SearchResult, case: dict[str, Any], run: d
 				replay={'case': case, 'op_index': r['op'], 'session': r['res'], 'fresh': fr, 'facts': {k: r[k] for k in ('dirty', 'dep_missing', 'registered_before')}}))
 		elif len(res.samples) < 2:
 			res.samples.append({'target': r['target'], 'op': r['op'], 'result': short(r['res'])})
+
+
+def fresh_by_seeds(ctx: Ctx, proj: str, queries: list[dict[str, Any]], seeds: list[str]) -> dict[str, dict[str, list[Any]]]:
+	if len(seeds) == 1:
+		return {seeds[0]: fresh_results(ctx, proj, queries, seeds[0])}
+	from concurrent.futures import ThreadPoolExecutor
+	out: dict[str, dict[str, list[Any]]] = {}
+	with ThreadPoolExecutor(max_workers=len(seeds)) as ex:
+		futs = {hs: ex.submit(fresh_results, ctx, proj, queries, hs, 2) for hs in seeds}
+		for hs, fu in futs.items():
+			out[hs] = fu.result()
+	return out
+
+
+def case_queries(case: dict[str, Any]) -> list[dict[str, Any]]:
+	"""The fresh-process requests a session over `case` will be compared with (known before the session runs: every transpile
+	target, every re-submitted source)."""
+	queries: dict[str, dict[str, Any]] = {}
+	for op in case['ops']:
+		if op[0] == 'transpile':
+			r = {'target': op[1], 'main': None}
+		elif op[0] == 'resubmit':
+			r = {'target': MAIN, 'main': render_source(op[1])}
+		else:
+			continue
+		qid = query_id(r)
+		if qid not in queries:
+			queries[qid] = {'id': qid, 'module': r['target']} if r['target'] != MAIN else {'id': qid, 'main': r['main']}
+	return list(queries.values())
+
+
+class FreshAhead:
+	"""The fresh-process answers of the search, asked for in a background thread while the sessions of the correspondence streams
+	run in this process (the answers depend on the files and the request only: they land in the run's answer table `_FRESH`, keyed
+	by the content of the project). Nothing depends on how far it gets: what is not there when the search asks is asked then."""
+
+	def __init__(self, ctx: Ctx, cases: list[dict[str, Any]], all_seed_cases: int) -> None:
+		import threading
+		self.ctx, self.cases, self.all = ctx, cases, all_seed_cases
+		self.stop = False
+		self.done = 0
+		self.thread = threading.Thread(target=self._work, daemon=True)
+		self.thread.start()
+
+	def _work(self) -> None:
+		for n, case in enumerate(self.cases):
+			import time
+			if self.stop or time.time() - self.ctx.t0 > (2400 if self.ctx.thorough else 420):
+				return
+			try:
+				proj = self.ctx.tmpdir('c04-proj-')
+				write_pool(proj, case['pool'])
+				seeds = HASH_SEEDS if n < self.all else [HASH_SEEDS[n % len(HASH_SEEDS)]]
+				fresh_by_seeds(self.ctx, proj, case_queries(case), seeds)
+				self.done += 1
+			except Exception:  # noqa: BLE001 - the search asks again and reports
+				return
+
+	def join(self) -> None:
+		self.thread.join()
 
 
 def dict_diff(a: dict[str, Any], b: dict[str, Any]) -> str:
@@ -1101,6 +1153,27 @@ def case_class(case: dict[str, Any]) -> str:
 
 
 _RUNS: dict[str, dict[str, Any]] = {}
+# the generated library closure table (translate/gen_lib_closure.py: AST only), compared with what the real code registers
+LIB_TABLE: dict[str, Any] = {}
+
+
+def closure_table_diff(ctx: Ctx) -> str:
+	"""'' when Generated/LibClosure.lean (AST reading of library_paths(), the search directories and the stub files) says what a
+	real fresh App registers after loading its libraries: the same libraries in the same order, the same set of modules, and for
+	each module the import edges the real `Entrypoint.imports` gives, in order."""
+	if not LIB_TABLE:
+		return 'the library closure table was not generated'
+	pre = prelude(ctx)
+	if list(LIB_TABLE['libs']) != list(pre['libs']):
+		return f"library_paths(): generated {LIB_TABLE['libs']}, real {pre['libs']}"
+	real = {m['name']: list(m['imports']) for m in pre['mods']}
+	gen = {k: list(v) for k, v in LIB_TABLE['modules'].items()}
+	if sorted(real) != sorted(gen):
+		return f'modules of the closure: generated {sorted(gen)}, registered by the real code {sorted(real)}'
+	for k in sorted(gen):
+		if gen[k] != real[k]:
+			return f'import edges of {k}: generated {gen[k]}, Entrypoint.imports {real[k]}'
+	return ''
 
 
 def case_warm(ctx: Ctx, case: dict[str, Any]) -> bool:
@@ -1195,13 +1268,25 @@ def search_imports(ctx: Ctx, cases: list[dict[str, Any]]) -> SearchResult:
 					replay={'case': case, 'module': e['module'], 'source': e['source'], 'real': e['real'], 'ast': e['ast']}))
 	# the real files of the library closure
 	from rogw.tranp.file.loader import ISourceLoader
-	ses = RealSession(ctx.tmpdir('c04-prelude-'), warm_cache(ctx, prelude(ctx)['cache']))
-	files = ses.app.resolve(ISourceLoader)
+	try:
+		ses = RealSession(ctx.tmpdir('c04-prelude-'), warm_cache(ctx, prelude(ctx)['cache']))
+		files = ses.app.resolve(ISourceLoader)
+	except Exception as e:  # noqa: BLE001
+		res.findings.append(Finding(key='app-construction', what=f'setting up an App to read the library closure raised {canon(e)}', replay={}))
+		return res
 	for m in prelude(ctx)['mods']:
 		res.cases += 1
-		mod = ses.modules.load(m['name'])
-		rl = ','.join(i.import_path.tokens for i in mod.entrypoint.imports)
-		al = ast_imports(files.load(m['name'].replace('.', '/') + '.py'))
+		try:
+			with op_budget():
+				mod = ses.modules.load(m['name'])
+				rl = ','.join(i.import_path.tokens for i in mod.entrypoint.imports)
+				al = ast_imports(files.load(m['name'].replace('.', '/') + '.py'))
+		except OpTimeout:
+			SKIPPED['imports: library module over budget'] = SKIPPED.get('imports: library module over budget', 0) + 1
+			continue
+		except Exception as e:  # noqa: BLE001 - every module of the closure loaded in the prelude session: it loads here too
+			res.findings.append(Finding(key='library-load', what=f"loading the library closure module {m['name']} in a second App raised {canon(e)}", replay={'module': m['name']}))
+			continue
 		if rl != al:
 			res.findings.append(Finding(key='imports-ast', what=f"library module {m['name']}: Entrypoint.imports gives [{rl}], the file has the top-level imports [{al}]", replay={'module': m['name'], 'real': rl, 'ast': al}))
 	res.distinct = res.cases
@@ -1518,6 +1603,8 @@ STATEMENTS: dict[str, str] = {
 	'inventory_unload': 'GENERATED inventory (translate/gen_session_state.py: every attribute / class-level / module-level container, every attribute rebound outside __init__, every memoised key, every setattr / cache decorator / global, every write to an attribute of another object, in all sources of rogw/tranp; writers pinned; verdict per site audited in translate/c04_state_audited.json): every site audited "removed by unload" or "owned by a per-module entry" names a model component in which unload m leaves nothing of m; every site audited "keyed by content" or "per-call stack" names a component unload does not touch',
 	'inventory_backed': 'every component of the model state except the symbol files (file system) is backed by at least one site of the inventory',
 	'inventory_audit_consistent': 'sites audited constant are written by __init__ only (class-level tables by nobody, also not from other files); sites audited removed-by-unload are written by a method named unload / clear; every memoised key is in a node table owned by an entrypoint or in the self-hosted parser',
+	'lib_closure_reach / lib_closure_closed': 'GENERATED library closure (translate/gen_lib_closure.py: library_paths(), the search directories of SourceEnvPath and the top-level imports of the stub files, AST only; compared on every run with what a real App registers and with Entrypoint.imports): every module of the shipped closure is reached from library_paths() through imports of files (BaseWorld.reach), the libraries are in it and every import of one of its files is in it (World.libs_base / base_closed)',
+	'baseWorld_load_shipped_partial': 'bounded instance of the hypothesis BaseWorld.load of det_all on the shipped closure, decided by the kernel on the model: after EVERY history of at most three load / transpile / unload operations on modules of the closure from a fresh process, loading the closure succeeds, registers nothing else, completes every module and gives every module the table of a plain load in a fresh process (the hypothesis itself — every reachable base-only state — stays a hypothesis)',
 	'unload_fuel': 'the cascade of unload never runs out of fuel: every fuel >= number of registered modules gives the same state',
 	'unload_load': 'unload m; load m gives m the tree of its source and exactly its reference table, as a load in any other stable state does',
 	'targets_sound / targets': 'every result the Runner produces is the reference result of its target; runs over permuted target lists without failing target produce the same (target, text) pairs',
@@ -1537,7 +1624,7 @@ ASSUMPTIONS: list[str] = [
 	'for det: acyclic import graph (rank), no file imports the in-memory module, the library base is not unloaded by the history (unloading library modules is covered by the streams and the search only), and no operation hit RecursionError (model fuel; the cascade of unload has fuel = number of registered modules, which suffices)',
 	'SymbolDB key order inside one module and the `_order_keys` order of symbol files are not modelled (no modelled consumer reads the order); store/restore is modelled as saving / re-inserting the module rows',
 	'per-module DI containers (lang/di.py combine) are not part of this model (C19); all node memo tables of a module are modelled as one memo table per entrypoint; the class-level Node.prop_keys cache (process-wide, not cleared by unload) is checked on the real code (cached == recomputed after all sessions), the class table itself is Props/C09',
-	'det_all additionally assumes BaseWorld.load (the library stubs load deterministically to their base tables from any base-only coherent state): not derived in the model, exercised by the streams and the search (ops on library modules)',
+	'det_all additionally assumes BaseWorld.load (the library stubs load deterministically to their base tables from any base-only coherent state): not derived in the model in general; for the shipped closure (generated table) its reach part is proved (lib_closure_reach), World.libs_base / base_closed are proved (lib_closure_closed) and its load part is decided for every history of at most three operations (baseWorld_load_shipped_partial); beyond that exercised by the streams and the search (ops on library modules)',
 ]
 
 
@@ -1585,8 +1672,11 @@ def run_checked(ctx: Ctx, before: str | None) -> int:
 	translate_ok, translate_msg = True, ''
 	with ctx.timed('translate'):
 		try:
-			from translate import gen_session_state
+			from translate import gen_lib_closure, gen_session_state
 			ctx.generated_tables.extend(gen_session_state.generate())
+			closure_recs = gen_lib_closure.generate()
+			LIB_TABLE.update({'libs': closure_recs[0]['libs'], 'modules': closure_recs[0]['modules']})
+			ctx.generated_tables.extend(closure_recs)
 		except Exception as e:  # noqa: BLE001 - TranslateError: a state site that is not in the audited inventory
 			translate_ok, translate_msg = False, f'{type(e).__name__}: {e}'[:3000]
 	proof = common.prove(ctx, PROP, leanchecker=ctx.thorough)
@@ -1600,16 +1690,27 @@ def run_checked(ctx: Ctx, before: str | None) -> int:
 		res.cases = 1
 		res.findings.append(Finding(key='library-load', what=f'loading the library modules in a fresh App raised {canon(e)}', replay={'exception': repr(e)}))
 		return common.finish(ctx, proof, [], [res], statements=STATEMENTS, partial=PARTIAL, assumptions=ASSUMPTIONS, translate_ok=translate_ok, translate_msg=translate_msg)
+	if translate_ok:
+		try:
+			d = closure_table_diff(ctx)
+		except Exception as e:  # noqa: BLE001
+			d = f'comparing the table with the real code raised {canon(e)}'
+		if d:
+			translate_ok, translate_msg = False, f'Generated/LibClosure.lean does not describe the library closure of the real code: {d}'
 	corpus = [norm_case(c) for c in corpus_cases()]
 	with ctx.timed('generate'):
 		valid = gen_cases(ctx, 'session', ctx.scale(5, 60), ctx.scale(12, 40), 0.15)
 		faulty = gen_cases(ctx, 'session-faulty', ctx.scale(6, 40), ctx.scale(12, 40), 1.0)
 		n_faulty = ctx.scale(6, 40)
+	fresh_cases = [*corpus, *valid[:ctx.scale(2, 20)], *faulty[:ctx.scale(2, 12)]]
+	ahead = FreshAhead(ctx, fresh_cases, ctx.scale(1, len(corpus) + 4))
 	with ctx.timed('correspondence'):
 		# pools with an import cycle are part of the tie again: the model follows Module.identity() (mid-load fallback) since round 3
 		streams = [stream_session(ctx, 'session', [*corpus, *valid]), stream_session(ctx, 'session-faulty', faulty[:n_faulty])]
 	with ctx.timed('search'):
-		fresh_cases = [*corpus, *valid[:ctx.scale(2, 20)], *faulty[:ctx.scale(2, 12)]]
+		with ctx.timed('search:fresh-ahead-wait'):
+			ahead.join()
+		ctx.notes.append(f'fresh-process answers asked ahead of the search for {ahead.done} of {len(fresh_cases)} sessions')
 		def timed(name: str, f: Any, *a: Any) -> SearchResult:
 			with ctx.timed(f'search:{name}'):
 				return f(*a)
